@@ -472,6 +472,9 @@ def lst(xs):
 def attr(base, name):
     if base[0] == 'g' and base[1] in MODULE_NAMES:
         return G(base[1] + '.' + name)
+    # slice(a, b).start is a, .stop is b
+    if base[0] == 'call' and base[1] == ('g', 'slice') and not base[3] and len(base[2]) in (2, 3) and name in ('start', 'stop'):
+        return base[2][0 if name == 'start' else 1]
     return ('attr', base, name)
 
 
@@ -497,6 +500,9 @@ def sub(base, index):
         for kv in base[1]:
             if kv[0] == 'kv' and kv[1] == index:
                 return kv[2]
+    # a constant selector distributes over a conditional:  (a if c else b)[0]  ==  a[0] if c else b[0]
+    if base[0] == 'ite' and index[0] == 'c':
+        return ite(base[1], sub(base[2], index), sub(base[3], index))
     return ('sub', base, index)
 
 
